@@ -42,4 +42,7 @@ class MeshTri2(Mesh2D2, MeshTri1):
         return MeshTri2.from_mesh(MeshTri1.from_mesh(self).refined())
 
     def _adaptive(self, marked):
-        return MeshTri2.from_mesh(MeshTri1.from_mesh(self).refined(marked))
+        # from_mesh keeps the order of the elements: carry the subdomains
+        m = replace(MeshTri1.from_mesh(self),
+                    _subdomains=self._subdomains)._adaptive(marked)
+        return replace(MeshTri2.from_mesh(m), _subdomains=m._subdomains)
